@@ -289,6 +289,30 @@ impl Ctx<'_> {
     }
 }
 
+impl Ctx<'_> {
+    /// the unparenthesised text must behave exactly like its documented grouping (value or kind of rejection)
+    fn template_rel(&mut self, src: &str, grouped: &str, tag: &str) {
+        self.rep.evaluations += 1;
+        self.rep.distinct_case(src);
+        self.rep.count("relational-templates");
+        let run = |s: &str| -> String {
+            match real::parse_exec(&format!("{PRELUDE}{s}"), true) {
+                Outcome::Value(v) => canon(&v),
+                Outcome::Panic(p) => format!("panic:{}", p.site()),
+                other => other.tag(),
+            }
+        };
+        let (a, b) = (run(src), run(grouped));
+        if !b.starts_with("rejected") {
+            self.rep.count("relational-templates-with-a-value");
+            self.rep.shape("templates", tag);
+        }
+        if a != b {
+            self.rep.violation(&format!("c14:template:{tag}"), &format!("`{src}` gave {a}, the documented grouping `{grouped}` gives {b}"), "c14", src);
+        }
+    }
+}
+
 pub fn run(cfg: &Cfg, rep: &mut Report) {
     let deadline = Deadline::new(cfg.budget_s);
     let mut ctx = Ctx { rep };
@@ -446,6 +470,21 @@ pub fn run(cfg: &Cfg, rep: &mut Report) {
     ];
     for (src, grouped, expected, tag) in t {
         ctx.template(src, grouped, expected, tag);
+    }
+    // every assignment operator is on the lowest level and groups to the right: whatever binary operator tops its
+    // right-hand side, `c op= a low b` is `c op= (a low b)` (same value, same yielded value, same acceptance)
+    let assigns = ["=", "+=", "-=", "*=", "/=", "%=", "**=", "&=", "|=", "^=", "<<=", ">>="];
+    for asg in assigns {
+        for (low, _) in BIN.iter() {
+            for (cell, a, b) in [("mut 8", "2", "1"), ("mut 8", "1", "3"), ("mut true", "true", "false"), ("mut true", "2", "1"), ("mut 8", "true", "false")] {
+                let src = format!("c := {cell}; y := c {asg} {a} {low} {b}; (y, *c)");
+                let grouped = format!("c := {cell}; y := c {asg} ({a} {low} {b}); (y, *c)");
+                ctx.template_rel(&src, &grouped, &format!("assign-vs:{asg}:{low}"));
+                let src = format!("c := {cell}; d := {cell}; c {asg} d {asg} {a} {low} {b}; (*c, *d)");
+                let grouped = format!("c := {cell}; d := {cell}; c {asg} (d {asg} ({a} {low} {b})); (*c, *d)");
+                ctx.template_rel(&src, &grouped, &format!("assign-chain-vs:{asg}:{low}"));
+            }
+        }
     }
     let _ = truncate("", 1);
 }
